@@ -1,3 +1,4 @@
+import Irismod.Model.Oracle
 /-
 Minimal self-contained model of the oracle module's feed-value history across genesis
 export / import (modules/oracle/genesis.go, keeper/feed.go SetFeedValue / GetFeedValues /
@@ -47,3 +48,116 @@ def importValues (ctxBatch latestHistory : Nat) (vs : List Value) : Hist :=
   vs.foldl (fun h v => setFeedValue h ctxBatch latestHistory v) []
 
 end Irismod.OracleGenesis
+
+/-!
+## The genesis of the full oracle model (`Irismod.Oracle.State`)
+
+`ExportGenesis` / `ValidateGenesis` / `InitGenesis` of modules/oracle (genesis.go, types/genesis.go)
+on top of the state machine of `Model/Oracle.lean`, followed LITERALLY:
+
+* `ExportGenesis`: `IteratorFeeds` (store order = byte order of the feed names); a feed whose request
+  context is not found is skipped; entry = (feed, `GetFeedValues` newest first, `reqCtx.State`).
+* `ValidateGenesis`: feed name, description, aggregate function, latest history, creator — nothing
+  about the values or the state.
+* `InitGenesis`: validate (panic); per entry `SetFeed`; request context lookup (panic when not
+  found); for each value IN EXPORT ORDER `SetFeedValue(name, reqCtx.BatchCounter, latestHistory, v)`
+  — the same key for all of them (finding F-gen-2: one value survives, the last written = the
+  OLDEST exported one, under the context's CURRENT batch counter); `Enqueue(name, entry.State)`
+  (running → index 0x04, anything else → index 0x05).
+
+The model's `Ctx` carries no batch counter: it is a parameter (`batchOf`). Core Lean only.
+-/
+namespace Irismod.OracleGen
+open Irismod Irismod.Oracle
+
+/-- `types.FeedEntry` -/
+structure Entry where
+  name   : Name
+  feed   : Feed
+  values : List Value          -- `GetFeedValues`: newest first
+  state  : CtxState
+  deriving DecidableEq, Repr, Inhabited
+
+/-- `types.GenesisState.Entries` -/
+abbrev Genesis := List Entry
+
+/-! ### store order of the feed table -/
+
+/-- `store.Set(GetFeedKey(k), f)` into a table kept in key order -/
+def insertFeed (k : Name) (f : Feed) : List (Name × Feed) → List (Name × Feed)
+  | [] => [(k, f)]
+  | (k', f') :: t =>
+    if k < k' then (k, f) :: (k', f') :: t
+    else if k = k' then (k, f) :: t
+    else (k', f') :: insertFeed k f t
+
+/-- the feed table in the order `IteratorFeeds` visits it: ascending feed name, one binding per
+name (the first binding of the association list is the live one) -/
+def storeOrder : AMap Name Feed → List (Name × Feed)
+  | [] => []
+  | (k, f) :: t => insertFeed k f (storeOrder t)
+
+/-! ### ExportGenesis -/
+
+def exportEntries (s : State) : List (Name × Feed) → Genesis
+  | [] => []
+  | (n, f) :: t =>
+    match AMap.get? s.ctxs n with
+    | some c => { name := n, feed := f, values := viewOf s n, state := c.state } :: exportEntries s t
+    | none => exportEntries s t
+
+def exportGenesis (s : State) : Genesis := exportEntries s (storeOrder s.feeds)
+
+/-! ### ValidateGenesis -/
+
+/-- the five validators of one entry; `creatorOk` = `sdk.AccAddressFromBech32` succeeds -/
+def entryValid (creatorOk : Addr → Bool) (e : Entry) : Bool :=
+  feedNameValid e.name && decide (e.feed.desc.length ≤ 280) &&
+  (decide (1 ≤ e.feed.agg.length) && decide (e.feed.agg.length ≤ 10) && knownAgg e.feed.agg) &&
+  (decide (1 ≤ e.feed.hist) && decide (e.feed.hist ≤ 100)) && creatorOk e.feed.creator
+
+def validateGenesis (creatorOk : Addr → Bool) (g : Genesis) : Bool := g.all (entryValid creatorOk)
+
+/-! ### InitGenesis -/
+
+/-- keeper `SetFeedValue(name, batch, latestHistory, v)` -/
+def setValue (s : State) (n : Name) (batch hist : Nat) (v : Value) : State :=
+  { s with values := AMap.set s.values n (setFeedValue (valuesOf s n) batch hist v) }
+
+/-- keeper `Enqueue(name, state)` -/
+def enqueueState (s : State) (n : Name) (st : CtxState) : State :=
+  if st = .running then { s with running := enqueue s.running n } else { s with paused := enqueue s.paused n }
+
+/-- the writes of one entry: `SetFeed`, one `SetFeedValue` per value in export order under ONE
+key, `Enqueue` -/
+def importOne (batchOf : Name → Nat) (s : State) (e : Entry) : State :=
+  enqueueState
+    (e.values.foldl (fun st v => setValue st e.name (batchOf e.name) e.feed.hist v)
+      { s with feeds := AMap.set s.feeds e.name e.feed })
+    e.name e.state
+
+def importEntry (batchOf : Name → Nat) (s : State) (e : Entry) : R :=
+  match AMap.get? s.ctxs e.name with
+  | none => .error (.panic "unknown service request context")
+  | some _ => .ok (importOne batchOf s e)
+
+def importEntries (batchOf : Name → Nat) : State → Genesis → R
+  | s, [] => .ok s
+  | s, e :: r =>
+    match importEntry batchOf s e with
+    | .error err => .error err
+    | .ok s' => importEntries batchOf s' r
+
+/-- `InitGenesis(ctx, k, data)` on the store `s` -/
+def importGenesis (creatorOk : Addr → Bool) (batchOf : Name → Nat) (s : State) (g : Genesis) : R :=
+  if !validateGenesis creatorOk g then .error (.panic "invalid genesis") else importEntries batchOf s g
+
+/-- the oracle module's own store emptied (feeds, values, both indexes); the service module's
+request contexts and the block time are not the oracle's -/
+def wipe (s : State) : State := { now := s.now, ctxs := s.ctxs }
+
+/-- export, wipe the oracle store, import the exported document -/
+def reimport (creatorOk : Addr → Bool) (batchOf : Name → Nat) (s : State) : R :=
+  importGenesis creatorOk batchOf (wipe s) (exportGenesis s)
+
+end Irismod.OracleGen
